@@ -60,6 +60,7 @@ type pkg struct {
 	vars    map[string]bool
 	funcs   map[string][]*ast.FuncDecl // by bare name (functions and methods)
 	mutable map[string]bool
+	pools   map[string]bool         // package-level sync.Pool / pool.Pool values: recycling of scratch memory, not a memory of requests
 	top     map[*ast.ValueSpec]bool // package-level var specs
 	skip    map[*ast.Ident]bool     // field / method names and composite-literal keys: not variable references
 }
@@ -72,7 +73,7 @@ func load(dir string) (*pkg, error) {
 	}
 	ctx := build.Default
 	ctx.BuildTags = nil // the production build, not the verif one
-	p := &pkg{vars: map[string]bool{}, funcs: map[string][]*ast.FuncDecl{}, mutable: map[string]bool{},
+	p := &pkg{vars: map[string]bool{}, funcs: map[string][]*ast.FuncDecl{}, mutable: map[string]bool{}, pools: map[string]bool{},
 		top: map[*ast.ValueSpec]bool{}, skip: map[*ast.Ident]bool{}}
 	var files []*ast.File
 	for _, e := range ents {
@@ -96,6 +97,11 @@ func load(dir string) (*pkg, error) {
 				if d.Tok == token.VAR {
 					for _, s := range d.Specs {
 						p.top[s.(*ast.ValueSpec)] = true
+						if isPool(s.(*ast.ValueSpec)) {
+							for _, id := range s.(*ast.ValueSpec).Names {
+								p.pools[id.Name] = true
+							}
+						}
 						for _, id := range s.(*ast.ValueSpec).Names {
 							if id.Name != "_" {
 								p.vars[id.Name] = true
@@ -157,6 +163,28 @@ func load(dir string) (*pkg, error) {
 		}
 	}
 	return p, nil
+}
+
+// isPool: the variable is declared as, or initialised with, a sync.Pool or one of the project's pool.* wrappers.
+// A pool hands scratch memory from one request to a later one by design; whether what comes out of it is clean
+// is something the concurrent differential runs look at (C01), not something this tie can judge.
+func isPool(vs *ast.ValueSpec) bool {
+	found := false
+	look := func(n ast.Node) bool {
+		if sel, ok := n.(*ast.SelectorExpr); ok {
+			if x, ok := sel.X.(*ast.Ident); ok && ((x.Name == "sync" && sel.Sel.Name == "Pool") || x.Name == "pool") {
+				found = true
+			}
+		}
+		return !found
+	}
+	if vs.Type != nil {
+		ast.Inspect(vs.Type, look)
+	}
+	for _, v := range vs.Values {
+		ast.Inspect(v, look)
+	}
+	return found
 }
 
 // global reports the package-level variable an identifier denotes, if any
@@ -259,7 +287,7 @@ func main() {
 		vars, found := p.reach(r.Fn)
 		var mut []string
 		for _, v := range vars {
-			if p.mutable[v] {
+			if p.mutable[v] && !p.pools[v] {
 				mut = append(mut, vlib.LeanStr(v))
 			}
 		}
